@@ -14,6 +14,7 @@ import (
 	"strings"
 
 	"github.com/protobom/protobom/pkg/formats"
+	"github.com/protobom/protobom/pkg/native"
 	"github.com/protobom/protobom/pkg/reader"
 	"github.com/protobom/protobom/pkg/sbom"
 	"github.com/protobom/protobom/pkg/storage"
@@ -125,6 +126,14 @@ func bigGen(g *G, tier string) []M {
 	// sequences on the process-wide registries followed by ordinary use: removing a driver twice,
 	// removing one that was never there, replacing one. Last, because a registry left locked stalls
 	// everything after it (the watchdog reports the first stalled call).
+	// the file and storage entry points are thin wrappers: they give what the stream entry points give
+	for _, f := range roundTripFormats {
+		ops = append(ops, M{"op": "filePaths", "f": string(f)})
+	}
+	ops = append(ops, M{"op": "storeWrappers"})
+	// one options value without a format shared by calls on writers of different formats, and a
+	// write to a stream that fails followed by ordinary writes
+	ops = append(ops, M{"op": "sharedCallOptions"}, M{"op": "failedWriteThenWrite"})
 	// one reader used for documents of different formats, with detection: each parse gives what a fresh
 	// reader told the format gives
 	ops = append(ops, M{"op": "readerReuse", "order": []any{"cdx", "spdx", "cdx", "spdx"}}, M{"op": "readerReuse", "order": []any{"spdx", "cdx", "cdx14", "spdx"}})
@@ -160,6 +169,18 @@ func ExecBig(op M) (res any) {
 	}()
 	if asStr(op["op"]) == "registryChurn" {
 		return registryChurn(asStr(op["side"]))
+	}
+	if asStr(op["op"]) == "filePaths" {
+		return filePaths(formats.Format(asStr(op["f"])))
+	}
+	if asStr(op["op"]) == "storeWrappers" {
+		return storeWrappers()
+	}
+	if asStr(op["op"]) == "sharedCallOptions" {
+		return sharedCallOptions()
+	}
+	if asStr(op["op"]) == "failedWriteThenWrite" {
+		return failedWriteThenWrite()
 	}
 	if asStr(op["op"]) == "readerReuse" {
 		return readerReuse(asList(op["order"]))
@@ -269,6 +290,262 @@ func registryChurn(side string) any {
 	return "unknown-op"
 }
 
+// filePaths: WriteFile / SniffFile / ParseFile against WriteStream / SniffReader / ParseStream, and a
+// shorter document written over a longer file. Returns a list of disagreements.
+func filePaths(f formats.Format) any {
+	dir, err := os.MkdirTemp("", "verif-files-")
+	if err != nil {
+		return "unknown-op"
+	}
+	defer os.RemoveAll(dir)
+	problems := []any{}
+	bad := func(format string, a ...any) { problems = append(problems, fmt.Sprintf(format, a...)) }
+	long, short := bigDoc(40, 200), bigDoc(2, 16)
+	path := dir + "/doc.json"
+	w := writer.New(writer.WithFormat(f), writer.WithRenderOptions(&native.RenderOptions{Indent: 2}))
+	for i, d := range []*sbom.Document{long, short} {
+		if err := w.WriteFile(d, path); err != nil {
+			bad("WriteFile of document %d fails: %v", i, err)
+			continue
+		}
+		onDisk, err := os.ReadFile(path)
+		if err != nil {
+			bad("the written file cannot be read: %v", err)
+			continue
+		}
+		viaStream, err := WriteDoc(d, f, 2)
+		if err != nil {
+			bad("WriteStream fails where WriteFile succeeds: %v", err)
+			continue
+		}
+		if outputDigest(onDisk) != outputDigest(viaStream) {
+			bad("WriteFile and WriteStream give different output for document %d (%d / %d bytes)", i, len(onDisk), len(viaStream))
+		}
+		sf, serr := (&formats.Sniffer{}).SniffFile(path)
+		rf, rerr := (&formats.Sniffer{}).SniffReader(bytes.NewReader(onDisk))
+		if sf != rf || (serr == nil) != (rerr == nil) {
+			bad("SniffFile gives (%q, %v), SniffReader on the same bytes (%q, %v)", sf, serr, rf, rerr)
+		}
+		if sf != f {
+			bad("the file written as %s is detected as %q", f, sf)
+		}
+		fromFile, ferr := reader.New().ParseFile(path)
+		fromStream, perr := reader.New().ParseStream(bytes.NewReader(onDisk))
+		switch {
+		case (ferr == nil) != (perr == nil):
+			bad("ParseFile gives error %v, ParseStream on the same bytes %v", ferr, perr)
+		case ferr == nil && !Equal(bigSummary(fromFile), bigSummary(fromStream)):
+			bad("ParseFile gives %s, ParseStream on the same bytes %s", js(bigSummary(fromFile)), js(bigSummary(fromStream)))
+		case ferr == nil && int(asInt(bigSummary(fromFile)["nodes"])) != len(d.NodeList.Nodes):
+			bad("document %d has %d nodes, the file read back has %v", i, len(d.NodeList.Nodes), bigSummary(fromFile)["nodes"])
+		}
+		withFmt, oerr := reader.New().ParseFileWithOptions(path, &reader.Options{Format: f})
+		if oerr != nil || !Equal(bigSummary(withFmt), bigSummary(fromStream)) {
+			bad("ParseFileWithOptions with the format stated gives (%s, %v)", js(bigSummary(withFmt)), oerr)
+		}
+	}
+	if _, err := reader.New().ParseFile(dir + "/missing.json"); err == nil {
+		bad("ParseFile of a missing file returns no error")
+	}
+	if _, err := (&formats.Sniffer{}).SniffFile(dir + "/missing.json"); err == nil {
+		bad("SniffFile of a missing file returns no error")
+	}
+	if err := w.WriteFile(short, dir+"/no/such/dir/doc.json"); err == nil {
+		bad("WriteFile into a missing directory returns no error")
+	}
+	return M{"problems": problems}
+}
+
+// storeWrappers: Writer.Store / Reader.Retrieve against the backend they wrap
+func storeWrappers() any {
+	dir, err := os.MkdirTemp("", "verif-wrap-")
+	if err != nil {
+		return "unknown-op"
+	}
+	defer os.RemoveAll(dir)
+	problems := []any{}
+	bad := func(format string, a ...any) { problems = append(problems, fmt.Sprintf(format, a...)) }
+	backend := &storage.FileSystem{Options: storage.FileSystemOptions{Path: dir}}
+	w := writer.New(writer.WithStoreRetriever(backend))
+	r := reader.New(reader.WithStoreRetriever(backend))
+	a, b := bigDoc(3, 16), bigDoc(5, 16)
+	a.Metadata.Id, b.Metadata.Id = "urn:wrap:a", "urn:wrap:b"
+	for _, d := range []*sbom.Document{a, b} {
+		if err := w.Store(d); err != nil {
+			bad("Writer.Store fails: %v", err)
+		}
+	}
+	for _, d := range []*sbom.Document{a, b} {
+		got, err := r.Retrieve(d.Metadata.Id)
+		direct, derr := backend.Retrieve(d.Metadata.Id, nil)
+		switch {
+		case err != nil || derr != nil:
+			bad("Reader.Retrieve(%s) gives error %v, the backend %v", d.Metadata.Id, err, derr)
+		case !proto.Equal(got, d):
+			bad("Reader.Retrieve(%s) returns a document different from the one stored through Writer.Store", d.Metadata.Id)
+		case !proto.Equal(got, direct):
+			bad("Reader.Retrieve(%s) and the backend return different documents", d.Metadata.Id)
+		}
+	}
+	// no-clobber through the writer's options: the existing entry is kept
+	a2 := bigDoc(1, 16)
+	a2.Metadata.Id = "urn:wrap:a"
+	if err := w.StoreWithOptions(a2, &writer.Options{StoreOptions: &storage.StoreOptions{NoClobber: true}}); err == nil {
+		bad("StoreWithOptions with NoClobber over an existing entry returns no error")
+	}
+	if got, err := r.Retrieve("urn:wrap:a"); err != nil || !proto.Equal(got, a) {
+		bad("after a refused no-clobber store the entry is not the original one (error %v)", err)
+	}
+	// without no-clobber it is replaced
+	if err := w.StoreWithOptions(a2, &writer.Options{StoreOptions: &storage.StoreOptions{NoClobber: false}}); err != nil {
+		bad("StoreWithOptions without NoClobber over an existing entry fails: %v", err)
+	} else if got, err := r.Retrieve("urn:wrap:a"); err != nil || !proto.Equal(got, a2) {
+		bad("after an overwriting store the entry is not the new document (error %v)", err)
+	}
+	if got, err := r.Retrieve("urn:wrap:b"); err != nil || !proto.Equal(got, b) {
+		bad("the entry of another identifier changed (error %v)", err)
+	}
+	// the default backends of two readers and two writers point where each was told to
+	dirA, dirB := dir+"/a", dir+"/b"
+	wa, wb := writer.New(), writer.New()
+	ra := reader.New()
+	if fs, ok := wa.Storage.(*storage.FileSystem); ok {
+		fs.Options.Path = dirA
+	}
+	if fs, ok := ra.Storage.(*storage.FileSystem); ok {
+		fs.Options.Path = dirA
+	}
+	rb := reader.New()
+	if fs, ok := wb.Storage.(*storage.FileSystem); ok {
+		fs.Options.Path = dirB
+	}
+	if fs, ok := rb.Storage.(*storage.FileSystem); ok {
+		fs.Options.Path = dirB
+	}
+	inA, inB, onlyA := bigDoc(1, 16), bigDoc(2, 16), bigDoc(3, 16)
+	inA.Metadata.Id, inB.Metadata.Id, onlyA.Metadata.Id = "urn:wrap:shared", "urn:wrap:shared", "urn:wrap:only-a"
+	if err := wa.Store(inA); err != nil {
+		bad("store through the first default writer fails: %v", err)
+	}
+	if err := wa.Store(onlyA); err != nil {
+		bad("store through the first default writer fails: %v", err)
+	}
+	if err := wb.Store(inB); err != nil {
+		bad("store through the second default writer fails: %v", err)
+	}
+	if got, err := ra.Retrieve("urn:wrap:shared"); err != nil || !proto.Equal(got, inA) {
+		bad("the reader configured for the first directory does not return the document stored there (error %v)", err)
+	}
+	if got, err := rb.Retrieve("urn:wrap:shared"); err != nil || !proto.Equal(got, inB) {
+		bad("the reader configured for the second directory does not return the document stored there (error %v)", err)
+	}
+	if got, err := ra.Retrieve("urn:wrap:only-a"); err != nil || !proto.Equal(got, onlyA) {
+		bad("a document stored only in the first directory is not found by its reader (error %v)", err)
+	}
+	if _, err := rb.Retrieve("urn:wrap:only-a"); err == nil {
+		bad("a document stored only in the first directory is returned by the reader of the second")
+	}
+	// errors of the backend are errors of the wrapper, with and without no-clobber
+	for _, nc := range []bool{false, true} {
+		wn := writer.New(writer.WithStoreRetriever(backend), writer.WithStoreOptions(&storage.StoreOptions{NoClobber: nc}))
+		noID := bigDoc(1, 16)
+		noID.Metadata.Id = ""
+		if err := wn.Store(noID); err == nil {
+			bad("Writer.Store of a document without identifier returns no error (NoClobber %v)", nc)
+		}
+		noMeta := bigDoc(1, 16)
+		noMeta.Metadata = nil
+		if err := wn.Store(noMeta); err == nil {
+			bad("Writer.Store of a document without metadata returns no error (NoClobber %v)", nc)
+		}
+	}
+	if _, err := r.Retrieve("urn:wrap:unknown"); err == nil {
+		bad("Reader.Retrieve of an unknown identifier returns no error")
+	}
+	if _, err := r.Retrieve(""); err == nil {
+		bad("Reader.Retrieve of the empty identifier returns no error")
+	}
+	if err := w.Store(nil); err == nil {
+		bad("Writer.Store(nil) returns no error")
+	}
+	return M{"problems": problems}
+}
+
+// sharedCallOptions: the options of a call are the caller's: a call neither needs a format in them
+// (the writer's is used) nor leaves one behind
+func sharedCallOptions() any {
+	problems := []any{}
+	bad := func(format string, a ...any) { problems = append(problems, fmt.Sprintf(format, a...)) }
+	doc := bigDoc(2, 16)
+	shared := &writer.Options{RenderOptions: &native.RenderOptions{Indent: 2}}
+	for round := 0; round < 2; round++ {
+		for _, f := range []formats.Format{formats.CDX15JSON, formats.SPDX23JSON, formats.CDX14JSON, formats.CDX13JSON} {
+			buf := nopCloser{&bytes.Buffer{}}
+			if err := writer.New(writer.WithFormat(f)).WriteStreamWithOptions(doc, buf, shared); err != nil {
+				bad("a %s writer fails with format-less call options: %v", f, err)
+				continue
+			}
+			got, err := (&formats.Sniffer{}).SniffReader(bytes.NewReader(buf.Bytes()))
+			if err != nil || got != f {
+				bad("the output of the %s writer, called with options that carry no format, is detected as %q (%v)", f, got, err)
+			}
+			if shared.Format != "" {
+				bad("the call wrote format %q into the caller's options", shared.Format)
+				shared.Format = ""
+			}
+		}
+	}
+	return M{"problems": problems}
+}
+
+type refusingStream struct{ accept int }
+
+func (r *refusingStream) Write(p []byte) (int, error) {
+	if r.accept <= 0 {
+		return 0, fmt.Errorf("stream refuses the write")
+	}
+	n := min(r.accept, len(p))
+	r.accept -= n
+	if n < len(p) {
+		return n, fmt.Errorf("stream is full")
+	}
+	return n, nil
+}
+func (r *refusingStream) Close() error { return nil }
+
+// failedWriteThenWrite: a write to a stream that refuses or shortens it must be reported, and must
+// not leak into what later writes produce
+func failedWriteThenWrite() any {
+	problems := []any{}
+	bad := func(format string, a ...any) { problems = append(problems, fmt.Sprintf(format, a...)) }
+	first, second := bigDoc(6, 64), bigDoc(2, 16)
+	for _, f := range roundTripFormats {
+		for _, accept := range []int{0, 1, 100} {
+			for round := 0; round < 8; round++ { // pooled state is handed out at random: try a few times
+				w := writer.New(writer.WithFormat(f))
+				if err := w.WriteStream(first, &refusingStream{accept: accept}); err == nil {
+					bad("%s: a write to a stream that accepts %d bytes reports success", f, accept)
+				}
+				buf := nopCloser{&bytes.Buffer{}}
+				if err := writer.New(writer.WithFormat(f)).WriteStream(second, buf); err != nil {
+					bad("%s: an ordinary write after a failed one fails: %v", f, err)
+					continue
+				}
+				back, err := reader.New().ParseStream(bytes.NewReader(buf.Bytes()))
+				if err != nil {
+					bad("%s: the output written after a failed write cannot be read back: %v", f, err)
+					break
+				}
+				if n := len(back.GetNodeList().GetNodes()); n != 3 {
+					bad("%s: the document written after a failed write reads back with %d nodes, 3 were written", f, n)
+					break
+				}
+			}
+		}
+	}
+	return M{"problems": problems}
+}
+
 // readerReuse: one reader, several documents of different formats, auto-detection
 func readerReuse(order []any) any {
 	small := bigDoc(3, 16)
@@ -334,6 +611,32 @@ func sniffLong(n int, shape string) any {
 func oracleBig(op M, res any, exec func(M) any) []Finding {
 	var out []Finding
 	name := asStr(op["op"])
+	if name == "filePaths" || name == "storeWrappers" || name == "sharedCallOptions" || name == "failedWriteThenWrite" {
+		what := "file entry points (" + asStr(op["f"]) + ")"
+		switch name {
+		case "storeWrappers":
+			what = "Writer.Store / Reader.Retrieve"
+		case "sharedCallOptions":
+			what = "call options shared between writers"
+		case "failedWriteThenWrite":
+			what = "writes after a failed write"
+		}
+		if s, ok := res.(string); ok {
+			if s != "unknown-op" && s != "skipped-after-hang" {
+				for _, p := range bigOpProps(op) {
+					out = append(out, Finding{p, what + ": " + s})
+				}
+			}
+			return out
+		}
+		r, _ := res.(M)
+		for _, pr := range asList(r["problems"]) {
+			for _, p := range bigOpProps(op) {
+				out = append(out, Finding{p, what + ": " + asStr(pr)})
+			}
+		}
+		return out
+	}
 	if name == "readerReuse" {
 		r, _ := res.(M)
 		if r == nil {
@@ -487,6 +790,17 @@ func bigOpProps(op M) []string {
 		return []string{"C06"}
 	case "storeBig":
 		return []string{"C19"}
+	case "filePaths":
+		if isSpdxFormat(asStr(op["f"])) {
+			return []string{"C01", "C04", "C06", "C07"}
+		}
+		return []string{"C02", "C04", "C06", "C07"}
+	case "storeWrappers":
+		return []string{"C19"}
+	case "sharedCallOptions":
+		return []string{"C06", "C18"}
+	case "failedWriteThenWrite":
+		return []string{"C01", "C02", "C07"}
 	case "readerReuse":
 		return []string{"C05", "C18"}
 	case "sniffLong":
